@@ -46,6 +46,10 @@ ASSUMPTIONS = [
     "whose first characters occur in 'RSA1024:' / 'ED25519-V3:' can be supplied; create() of an authenticated v2 service cannot complete there "
     "and is not judged) and auth-service-id-not-derived-from-key (the ServiceID returned for a BasicAuth service is not the hash of its key; "
     "HS_DESC events name the key-derived id); the per-ADD_ONION / DEL_ONION oracle is unchanged in both",
+    "cells with tor_best=ED25519-V3: the reference Tor answers NEW:BEST with a version-3 key and a 56-character ServiceID although the "
+    "client noted version 2 (what current Tors do); address and DEL_ONION must be the ServiceID Tor assigned",
+    "cells with async_port_lookup: stopListening() of the probe listener used to find a free local port completes on a later reactor turn "
+    "(as on a real reactor) instead of at once",
     "cells with caller_mutates_after_call: the ports list (and the list the AuthBasic was built from) is overwritten right after create() / "
     "Tor.create_onion_service() returned, before any reply is delivered; 'requested' means the arguments as they were at call time",
     "cells with tor_non_anonymous drive txtorcon.Tor(reactor, proto, _non_anonymous=True/False).create_onion_service with single_hop "
@@ -76,7 +80,7 @@ ANCHORS = [
 FLOORS = {
     "quick": {"evaluations": 1500, "add_onion_decoded": 800, "del_onion_decoded": 600, "custody_snapshots": 3000,
               "crlf_cells_checked": 500, "hostname_compared": 600, "generated_key_retention_checked": 150,
-              "history_creations": 120, "request_objects_compared": 300, "caller_mutated_arguments_after_call": 20,
+              "history_creations": 120, "request_objects_compared": 300, "caller_mutated_arguments_after_call": 20, "async_port_lookup_turns": 5,
               "reach:txtorcon.onion:_add_ephemeral_service": 1000,
               "reach:txtorcon.onion:_validate_single_port_string": 1500},
     "thorough": {"evaluations": 3000, "add_onion_decoded": 2000, "del_onion_decoded": 1500, "custody_snapshots": 6000,
@@ -108,6 +112,12 @@ PORT_LISTS = {
     "dup:pair+str": [[80, 8080], "80 127.0.0.1:8081"],
     "dup3:int+pair+str+other": [443, [443, 8443], "443 127.0.0.1:9443", [22, 2222]],
 }
+
+
+# lists with int-form entries (the local port comes from a lookup through the reactor), two of them with several
+INT_PORT_LISTS = {k: v for k, v in PORT_LISTS.items() if any(isinstance(p, int) for p in v)}
+INT_PORT_LISTS["int+int"] = [80, 443]
+INT_PORT_LISTS["int+pair+int+str"] = [80, [22, 2222], 8080, "25 127.0.0.1:2525"]
 
 
 def cookie(i):
@@ -150,6 +160,23 @@ def all_cells():
         yield {"route": "auth", "version": 2, "key": key, "detach": detach, "single_hop": False,
                "auth": a, "clients": auth_clients(a), "ports_id": pl, "ports": PORT_LISTS[pl], "await_all": aw,
                "server_variant": "auth-service-id-not-derived-from-key"}
+    # Tor's choice for NEW:BEST is an ED25519-V3 key (current Tors) although the client noted version 2:
+    # the address Tor returns is 56 characters; create -> complete -> remove
+    for route, key, detach, pl, aw in itertools.product(("eph", "tor"), ("none", "discard"), (False, True), SMALL_PORTS, (False, True)):
+        yield {"route": route, "version": 2, "key": key, "detach": detach, "single_hop": False, "auth": None, "clients": None,
+               "ports_id": pl, "ports": PORT_LISTS[pl], "await_all": aw, "tor_best": "ED25519-V3"}
+    # local-port lookups for int-form entries answered synchronously / on later reactor turns
+    for route, version, pl, asy in itertools.product(ROUTES, (2, 3), sorted(INT_PORT_LISTS), (False, True)):
+        a = "b1n" if route == "auth" else None
+        yield {"route": route, "version": version, "key": "none", "detach": False, "single_hop": False,
+               "auth": a, "clients": auth_clients(a) if a else None, "ports_id": pl, "ports": INT_PORT_LISTS[pl],
+               "await_all": False, "async_port_lookup": asy}
+    # both together: the caller re-uses its list while a local-port lookup of the creation is still in flight
+    for route, pl in itertools.product(ROUTES, sorted(INT_PORT_LISTS)):
+        a = "b1n" if route == "auth" else None
+        yield {"route": route, "version": 2, "key": "none", "detach": False, "single_hop": False,
+               "auth": a, "clients": auth_clients(a) if a else None, "ports_id": pl, "ports": INT_PORT_LISTS[pl],
+               "await_all": False, "async_port_lookup": True, "caller_mutates_after_call": True}
     # the caller mutates / re-uses its argument objects right after the call returned (for Tor.create_onion_service
     # the call is then still parked on the TorConfig bootstrap): the command must reflect the arguments at call time
     for route, version, pl in itertools.product(ROUTES, (2, 3), sorted(PORT_LISTS)):
@@ -258,6 +285,10 @@ def variant_class(cell):
     out = []
     if cell.get("server_variant"):
         out.append("server-variant-" + cell["server_variant"])
+    if cell.get("tor_best"):
+        out.append("server-best-is-" + cell["tor_best"])
+    if cell.get("async_port_lookup"):
+        out.append("local-port-lookup-finishes-on-later-turn")
     if cell.get("caller_mutates_after_call"):
         out.append("caller-mutates-arguments-after-call")
     if "tor_non_anonymous" in cell:
@@ -335,9 +366,11 @@ def strings_of(obj, depth=0, seen=None):
 class Ctx(object):
     """one control connection + reference Tor (+ TorConfig / txtorcon.Tor) shared by the creations of a history"""
 
-    def __init__(self, single_hop, probe=False, variant=None):
+    def __init__(self, single_hop, probe=False, variant=None, best=None):
         # probe: OUT-OF-SPEC server that answers with PrivateKey= although DiscardPK was sent
+        # best: what this Tor makes of NEW:BEST (current Tors: an ED25519-V3 key, whatever version the client noted)
         self.tor = OT.OnionTor(non_anonymous_mode=bool(single_hop), send_key_despite_discard=bool(probe),
+                               best=best or "RSA1024",
                                opaque_caller_keys=(variant == "opaque-caller-keys"),
                                unlinked_auth_service_ids=(variant == "auth-service-id-not-derived-from-key"))
         self.proto, self.tor, self.link = connected_protocol(self.tor)
@@ -374,8 +407,9 @@ def run_cell(cell, rec, probe=False, ctx=None, objs=None, extra_class=None, inje
         rec.violation(clause, input_class(cell, ex or None), detail, case)
 
     if ctx is None:
-        ctx = Ctx(cell["single_hop"], probe, cell.get("server_variant"))
+        ctx = Ctx(cell["single_hop"], probe, cell.get("server_variant"), cell.get("tor_best"))
     tor, proto, link, reactor, aud = ctx.tor, ctx.proto, ctx.link, ctx.reactor, ctx.aud
+    reactor.async_stop = bool(cell.get("async_port_lookup"))
     # the server's mode: what the txtorcon.Tor object says it launched (if stated), else whatever is requested
     tor.non_anonymous_mode = bool(cell["tor_non_anonymous"]) if "tor_non_anonymous" in cell else bool(cell["single_hop"])
     logs = audit.LogCapture()
@@ -470,6 +504,14 @@ def run_cell(cell, rec, probe=False, ctx=None, objs=None, extra_class=None, inje
                 objs.setdefault("key", key_arg)
         o = aud.watch(d, "create")
         link.pump()
+        turns = 0
+        while reactor.pending_stops and turns < 50:
+            # later reactor turns: the local-port lookups (listen on port 0 / stopListening) finish one by one
+            turns += 1
+            reactor.finish_stops()
+            link.pump()
+        if turns:
+            rec.count("async_port_lookup_turns", turns)
         if route == "tor":
             # bootstrap lines of Tor.get_config() belong to the set-up, not to the creation
             base = next((i for i, l in enumerate(tor.lines) if i >= base and
@@ -554,8 +596,10 @@ def run_cell(cell, rec, probe=False, ctx=None, objs=None, extra_class=None, inje
                 alloc_left.remove(hit[1][2])
         rec.count("port_mappings_compared", len(parsed.ports))
         if not ports_ok:
+            both = cell.get("async_port_lookup") and cell.get("caller_mutates_after_call")
             V("port-mappings-mismatch", {"requested": cell["ports"], "allocated_local_ports": allocated,
-                                         "sent": parsed.ports}, extra="ports=" + port_forms(cell["ports"]))
+                                         "sent": parsed.ports},
+              extra=None if both else "ports=" + port_forms(cell["ports"]))
         for p in reactor.ports[alloc_before:]:
             if p.interface != "127.0.0.1":
                 V("local-port-not-loopback", {"interface": p.interface})
@@ -821,6 +865,10 @@ def random_cell(rnd):
             cell["adv_blob"] = base64.b64encode(base64.b64decode(cell["adv_blob"][:86] + "==")).decode("ascii")
     if rnd.random() < 0.1:
         cell["caller_mutates_after_call"] = True
+    if rnd.random() < 0.3:
+        cell["async_port_lookup"] = True
+    if version == 2 and route != "auth" and key in ("none", "discard") and rnd.random() < 0.3:
+        cell["tor_best"] = "ED25519-V3"
     if route == "tor" and rnd.random() < 0.5:
         cell["tor_non_anonymous"] = rnd.choice([True, False])
         cell["single_hop"] = rnd.choice([False, None, True])
